@@ -197,6 +197,16 @@ func genRT(tier string) []proto.RTItem {
 			}
 		}
 	}
+	// the SACK methods, handshake included: a fault on the capture handle or the sink at any call of the request - also
+	// during the handshake, before the engine starts - is the request's outcome; prefer_sack does not turn it into
+	// "selective acknowledgement not supported" and answer with a SYN trace instead
+	for _, m := range []string{"sack", "prefer_sack"} {
+		for _, f := range []simnet.Fault{{Op: "Read", K: -1, Class: "fatal"}, {Op: "Read", K: -1, Class: "zero"}, {Op: "SetReadDeadline", K: -1, Class: "fatal"}, {Op: "WriteTo", K: -1, Class: "fatal"}, {Op: "SetPacketFilter", K: -1, Class: "fatal"}} {
+			r := proto.RTScn{Hostname: "198.18.0.9", Protocol: "tcp", Method: m, MinTTL: 1, MaxTTL: 4, DelayMs: 10, TimeoutMs: 100, Queries: 1, E2e: 0, Dest: 3, UseListenerPort: true,
+				IPIDBase: 1000, EchoBase: 101, Faults: []simnet.Fault{f}}
+			items = append(items, proto.RTItem{Scn: r, Class: fmt.Sprintf("request/tcp-%s/fault-%s-%s", m, f.Op, f.Class)})
+		}
+	}
 	// a request the variant cannot serve (TCP SYN to an IPv6 target): whatever it answers, every handle it opened is closed once
 	for _, m := range []string{"syn", "sack", "prefer_sack"} {
 		r := proto.RTScn{Hostname: "2001:db8::77", Protocol: "tcp", Method: m, MinTTL: 1, MaxTTL: 4, DelayMs: 10, TimeoutMs: 100, Queries: 1, E2e: 1, Dest: 3, IPIDBase: 1000, EchoBase: 101, WantV6: true}
@@ -210,7 +220,8 @@ var RF = &proto.RTFamily{ID: "C10", Gen: genRT, Check: func(it *proto.RTItem, r 
 	if r.Net.Injected > 0 {
 		if r.Err == nil {
 			out = append(out, proto.Issue{Key: "failure-swallowed", Detail: r.Summary()})
-		} else if !errors.Is(r.Err, simnet.ErrInjected) {
+		} else if !errors.Is(r.Err, simnet.ErrInjected) && !(len(it.Scn.Faults) > 0 && it.Scn.Faults[0].Class == "zero") {
+			// (a zero-length read is not an error value: the failure is the implementation's own, there is no cause to wrap)
 			out = append(out, proto.Issue{Key: "cause-not-wrapped", Detail: r.Err.Error()})
 		}
 		if r.Err != nil && r.Res != nil {
